@@ -2,6 +2,7 @@
 
 _OVERLAY = {"internal/rules/zz_verif_c14_test.go": "c14/c14_test.go"}
 _OVERLAY_REAL = dict(_OVERLAY, **{"internal/rules/zz_verif_c14_real_test.go": "c14/c14_real_test.go"})
+_OVERLAY_HISTORY = dict(_OVERLAY, **{"internal/rules/zz_verif_c14_history_test.go": "c14/c14_history_test.go"})
 _OVERLAY_WIRING = dict(_OVERLAY, **{"internal/rules/zz_verif_c14_wiring_test.go": "c14/c14_wiring_test.go"})
 
 P = {
@@ -10,13 +11,17 @@ P = {
     "theorems_module": "Properties.C14",
     "theorems": ["C14_factory_meets_spec", "C14_stagewise_inheritance", "C14_malformed_rejected", "C14_wellformed_accepted",
                  "C14_default_rule_meets_spec", "C14_pipeline_language", "C14_reading_in_scope",
-                 "C14_ruleset_all_or_nothing", "C14_ruleset_one_bad_rejects", "C14_ruleset_meets_spec",
+                 "C14_history_meets_spec", "C14_ruleset_all_or_nothing", "C14_ruleset_one_bad_rejects", "C14_ruleset_meets_spec",
                  "C14_trace_success", "C14_trace_failure", "C14_stage_kinds",
                  "C14_corr_implies_prop", "C14_corr_implies_prop_set", "C14_prop_sound", "C14_nonvacuous"],
     "streams": [{
         "name": "factory", "pkg": "./internal/rules", "test": "TestVerifC14", "overlay": _OVERLAY,
         "eval_module": "Run.Eval_C14", "check_term": "check",
         "n_quick": 1500, "n_thorough": 40000, "findings": {}, "shard": 200,
+    }, {
+        "name": "history", "pkg": "./internal/rules", "test": "TestVerifC14History", "overlay": _OVERLAY_HISTORY,
+        "eval_module": "Run.Eval_C14", "check_term": "check",
+        "n_quick": 250, "n_thorough": 8000, "findings": {}, "shard": 150,
     }, {
         "name": "ruleset", "pkg": "./internal/rules", "test": "TestVerifC14RuleSet", "overlay": _OVERLAY,
         "eval_module": "Run.Eval_C14", "check_term": "check_rs",
@@ -35,7 +40,10 @@ P = {
             "override maps, unknown ids, non-string ids of 4 shapes, bad overrides, non-map configs, bad conditions, multi-key "
             "steps, backtracking unset/on/off, both modes; source id, version string, encoded-slash mode, hosts, methods, scheme, "
             "number of routes, forward_to.rewrite randomised and not given to the model) through (factory) the real NewRuleFactory/"
-            "CreateRule with a stub catalogue, (ruleset) YAML text through the real parser, processor (OnCreated, or OnUpdated over "
+            "CreateRule with a stub catalogue, (history) 2-5 CreateRule calls on ONE factory instance whose rules deliberately re-use "
+            "stage lists of each other byte for byte (same execute / other on_error, same on_error / other execute, the same "
+            "definition with one broken reference, the same pipelines with other matcher settings; also between the rules of a rule "
+            "set and the preloaded rules), every call evaluated on its own, (ruleset) YAML text through the real parser, processor (OnCreated, or OnUpdated over "
             "0-3 preloaded rules) and repository, (wiring) the fx Module of the rules package with the real file_system provider and "
             "rule executor, (realfactory) the real mechanism factory over 14 real mechanisms with type-specific valid and invalid "
             "overrides. Observed through rule.Rule / rule.Repository / rule.Executor only (factory, ruleset, wiring): Execute on 12 "
@@ -44,7 +52,7 @@ P = {
             "serves /p0../p3; realfactory: accepted/rejected and mechanism ids per stage. Non-trivial = inside the scope of the "
             "statement and either a loaded rule that takes over at least one non-empty stage of the default rule, or a rejected "
             "definition all of whose steps are individually well formed (rejected for order / missing authenticator / forward_to); "
-            "rule sets: more than one rule or a preloaded set; distinct by hash of the generated input",
+            "histories: a call on a rule derived from an earlier rule of the same factory; rule sets: more than one rule or a preloaded set; distinct by hash of the generated input",
     "anchors": ["internal/rules/rule_factory_impl.go", "internal/config/default_rule.go", "internal/rules/config/rule.go",
                 "internal/rules/rule_impl.go", "internal/rules/ruleset_processor_impl.go",
                 "internal/rules/mechanisms/mechanism_factory.go", "internal/rules/module.go"],
@@ -72,8 +80,8 @@ P = {
                   "theorem of its own; that the rule-set loader (parser validation, version, factory; creation and update) accepts a "
                   "set iff it accepts every rule and otherwise leaves the source's rules untouched; that the executed trace is the "
                   "effective pipeline stage by stage; and that an implementation showing what the model shows satisfies the "
-                  "property predicate. The model is tied to the code by running both on ~3200 (quick) / ~80000 (thorough) generated "
-                  "cases per run in four streams and comparing executed traces, load results and served rules; the property "
+                  "property predicate. The model is tied to the code by running both on ~4000 (quick) / ~100000 (thorough) generated "
+                  "cases per run in five streams and comparing executed traces, load results and served rules; the property "
                   "predicate (built from the specification alone) is evaluated on the implementation's observation.",
     "level_note": "Scope: a step map with several mechanism keys and an `if` on an authenticator step are outside the statement; for "
                   "them only the model's reading (first key in a fixed order, condition ignored) is characterised "
